@@ -1,6 +1,7 @@
 #!/bin/sh
 # Re-run every seeded change against the check of its property (quick tier) and record the verdict in meta.json.
 # A meta.json may name a "cross_check": the property whose check is responsible for the changed behaviour.
+export VERIF_EVIDENCE_DIR=/tmp/verif_evidence_scratch   # evidence/ describes runs on the unchanged tree only
 cd /verif
 for d in ${@:-seeded/*/}; do
   d=${d%/}
